@@ -20,4 +20,4 @@ with open(d + "/runs.jsonl", "a") as f:
 PY
 git -C /repo worktree remove --force $wt
 h=$(echo -n $wt | sha256sum | cut -c1-8)
-rm -rf .work/harness-$h .work/slot-$h-* .work/replay-target-$h
+rm -rf .work/harness-$h .work/slot-$h-* .work/replay-target-$h .work/logs-$h
